@@ -2052,7 +2052,7 @@ func corpus() []c10Case {
 		{Kind: "http", Backend: "mem", Resp: maxAge0},
 		{Kind: "http", Backend: "mem", Resp: pastExp},
 		{Kind: "http", Backend: "redis", Resp: maxAge0},
-		// C10-F4 (open): the response aged before it arrived / unparsable Expires + default ttl
+		// C10-F4 (a3cbbb3): the response aged before it arrived / unparsable Expires + default ttl
 		{Kind: "http", Backend: "mem", Resp: &c10Resp{Method: "GET", Status: 200, CC: "max-age=3600", Age: "3599"}},
 		{Kind: "http", Backend: "redis", Adv: 30500 * msec, Resp: &c10Resp{Method: "GET", Status: 200, CC: "max-age=3600", Age: "3599"}},
 		{Kind: "http", Backend: "mem", Resp: &c10Resp{Method: "GET", Status: 200, CC: "max-age=60", Date: p64(-3600)}},
@@ -2067,7 +2067,7 @@ func corpus() []c10Case {
 		{Kind: "exec", Mech: "jwtkey", Conf: nil, Delta: p64(30), Chain: p64(10 * 365 * 86400), Validate: true},
 		{Kind: "exec", Mech: "jwtkey", Conf: nil, Delta: p64(3600), Chain: p64(15)},
 		{Kind: "exec", Mech: "jwtkey", Conf: nil, Delta: p64(-5), Chain: p64(3600), Validate: true},
-		// C10-F5 (open): a request under `cache_ttl: 60ms` is answered from the entry a request under 1 h stored 180 ms ago
+		// C10-F5 (8647e06): a request under `cache_ttl: 60ms` is answered from the entry a request under 1 h stored 180 ms ago
 		{Kind: "mix", Mech: "intro", Backend: "mem", Conf: p64(3600 * sec), Evs: []c10Ev{{Key: 1}, {Key: 1, Rule: p64(60 * msec), Adv: 180 * msec}}},
 		{Kind: "mix", Mech: "generic", Backend: "mem", Conf: p64(3600 * sec), Evs: []c10Ev{{Key: 1}, {Key: 1, Rule: p64(60 * msec), Adv: 180 * msec}}},
 		{Kind: "mix", Mech: "jwtkey", Backend: "redis", Conf: p64(3600 * sec), Evs: []c10Ev{{Key: 1}, {Key: 1, Rule: p64(sec), Adv: 1450 * msec}}},
